@@ -379,9 +379,12 @@ def run_one(ck, prog):
             a = c3.args(bb)
             for pos, nm in ((2, "off_in"), (4, "off_out")):
                 e = a[pos] if len(a) > pos else None
-                ptr = e is not None and (fold(e) == 0 or mentions(e, c3.prov, lambda z: z[0] in ("addr", "ref") or (z[0] == "cast" and "Pointer" in str(z[1]))))
+                # on every reaching definition: the address of the offset variable. (NULL would make the kernel use - and move - the
+                # descriptor's own file position: File::copy on a handle that was read from would copy from there, not from offset 0)
+                from .c17 import all_defs
+                ptr = e is not None and all_defs(e, c3.prov, lambda z: isinstance(z, tuple) and fold(z) != 0 and mentions(z, c3.prov, lambda w: w[0] in ("addr", "ref") or (w[0] == "cast" and "Pointer" in str(w[1]))))
                 ck.ob("C14.7", f"copy_file_range|{nm}-by-pointer", ptr, fn=cfr["path"], site=c3.site(bb),
-                      detail=f"the kernel reads {nm} as `loff_t *`; the wrapper passes `{show(e) if e is not None else None}` - a by-value offset only works while it is 0 (NULL), the second round of a long copy fails with EFAULT")
+                      detail=f"the kernel reads {nm} as `loff_t *`; the wrapper passes `{show(e) if e is not None else None}` - it must be the address of the offset on every path: a by-value offset only works while it is 0 (the second round of a long copy fails with EFAULT) and NULL makes the kernel use the descriptor's current position instead of the requested offset")
             offs = [canon(a[pos]) for pos in (2, 4) if len(a) > pos]
             ck.ob("C14.7", "copy_file_range|offsets-from-parameters", len(offs) == 2 and all(mentions(a[pos], c3.prov, lambda z, want=want: (z[0] == "param" and z[1] == want) or (z[0] in ("place", "var") and z[2] == ("src_offset" if want == 2 else "dest_offset"))) for pos, want in ((2, 2), (4, 4))), fn=cfr["path"], site=c3.site(bb),
                   detail=f"off_in / off_out must designate the caller's source / destination offsets: {offs}")
